@@ -65,6 +65,7 @@ CheckSdk(row) ==
                      w == [m |-> row.m, n |-> row.n, sdkname |-> row.name, field |-> f.fname]
                  IN /\ Must(f.norm = row.name, w @@ [what |-> "field number maps to another struct field than the SDK profile assigns"])
                     /\ Must(f.b = row.b /\ f.a = row.a, w @@ [what |-> "base type / array flag differ from the SDK profile", expected |-> << row.b, row.a >>, observed |-> << f.b, f.a >>])
+                    /\ Must((IF f.k \in {1, 2} THEN f.k ELSE 0) = row.k, w @@ [what |-> "time kind (date_time / local_date_time) differs from the SDK profile", expected |-> row.k, observed |-> f.k])
 
 VARIABLE i
 Init == i = 1
